@@ -32,7 +32,7 @@ PROBES = [
     "event_items", "event_checked", "pair_checked_no_crossing", "crossing_with_event", "bisect_sharpness_checked", "label_checked",
     "two_listeners_fired_same_step", "listener_reused_sequentially", "reuse_after_cancel", "two_live_tasks_same_object",
     "visibility_skipped_below_horizon", "visibility_caller_list_reused", "iteration_started_from_an_event_state", "sample_exactly_on_a_zero", "ephem_iterated_from_just_after_a_crossing", "light_model_checked", "condition_false_no_event",
-    "interleaved_shared_listener_interference",
+    "interleaved_shared_listener_interference", "same_listener_object_listed_twice",
 ]
 REAL_VS_STUB = "real: listeners, Speaker.listen/_bisect, propagators, Ephem, stations, frames, analytic Sun; stub: wall clock (virtual, jumped before TerminatorListener()), EOP storage (simulated disk); oracle: pristine node for states at arbitrary dates + independent numpy models of every watched quantity"
 ASSUMPTIONS = [
@@ -224,7 +224,26 @@ def gen_plan(rng, tier, i):
                 ops.append({"op": "propagate", "obj": i_, "ms": int(rng.uniform(-1, 2) * rev / 500) * 500})
     for tid, _ in live:
         ops.append({"op": "drain", "task": tid})
+    import random
+
+    child = random.Random("c10-child:" + repr(len(ops)) + repr(knobs.get("eps_bisect_us")) + repr([o.get("task") for o in ops]))  # added after the first version: own generator
+    for o in ops:
+        if o["op"] == "start" and o["call"].get("listeners") and child.random() < 0.08:
+            # the same listener object handed over twice in one list (lists merged by the caller): still one event per crossing
+            ls_ = list(o["call"]["listeners"])
+            ls_.insert(child.randint(0, len(ls_)), child.choice(ls_))
+            o["call"]["listeners"] = ls_
     return {"knobs": knobs, "ops": ops}
+
+
+def _uniq(objs):
+    """Listener objects of a list, each once (the same object listed twice is one listener: one event per crossing)."""
+    seen, out = set(), []
+    for o in objs:
+        if id(o) not in seen:
+            seen.add(id(o))
+            out.append(o)
+    return out
 
 
 # --------------------------------------------------------------------- hooks
@@ -329,11 +348,11 @@ class Hooks:
                         if len({id(x) for x in sim.caller_lists[cl]}) and any(u is not t and getattr(u, "caller_list", None) == cl for u in sim.tasks.values()):
                             sim.ctx.probe("visibility_caller_list_reused")
                     elif ev in (True,) and t.listeners:
-                        infos += [LInfo(L, sim) for L in t.listeners]
+                        infos += [LInfo(L, sim) for L in _uniq(t.listeners)]
                     if ev == "listener" and t.listeners:
                         infos.append(LInfo(t.listeners[0], sim))
                     elif ev == "list":
-                        infos += [LInfo(L, sim) for L in t.listeners]
+                        infos += [LInfo(L, sim) for L in _uniq(t.listeners)]
                     if ev:
                         sta = sim.stations[t.station]
                         infos.append(LInfo(_Virtual("StationSignalListener", station=sta, elev=0), sim))
@@ -341,8 +360,10 @@ class Hooks:
                         if sim.kn["stations"][t.station].get("mask"):
                             infos.append(LInfo(_Virtual("StationMaskListener", station=sta), sim))
                 else:
-                    for L in t.listeners:
+                    for L in _uniq(t.listeners):
                         infos.append(LInfo(L, sim))
+                    if len(_uniq(t.listeners)) < len(t.listeners):
+                        sim.ctx.probe("same_listener_object_listed_twice")
             t.linfos = infos
             t.pending = []  # events since the last sample
             t.prev_ms = None
